@@ -2047,7 +2047,10 @@ class Engine:
         for name in sorted(mutated):
             cur = self.lookup_or_missing(name, fr)
             t = spec.types.get(name)
-            if isinstance(t, tuple) and t and t[0] == 'symlist' and isinstance(cur, list):
+            if isinstance(t, tuple) and t and t[0] == 'countbag' and isinstance(cur, list):
+                from .bags import CountBag
+                self.rebind(fr, name, CountBag.from_concrete(self, cur, self.spec_env[t[1]], name))
+            elif isinstance(t, tuple) and t and t[0] == 'symlist' and isinstance(cur, list):
                 from .symlist import SymList
                 self.rebind(fr, name, SymList.from_concrete(cur, t[1], t[2] if len(t) > 2 else None, name))
             elif isinstance(t, tuple) and t and t[0] == 'symdict' and isinstance(cur, dict):
@@ -2073,6 +2076,8 @@ class Engine:
             t = spec.types.get(name)
             if cur is _MISSING and t is None:
                 continue   # first assigned inside the loop and not live after: leave unbound
+            if t == 'frame':
+                continue   # contract: per-iteration temporary, not observed after the loop
             fr.env[name] = self.havoc_like(cur, t, name)
 
         # ---- havoc containers mutated in place
@@ -2169,6 +2174,11 @@ class Engine:
 
     def havoc_like(self, cur, t, name):
         if t is not None:
+            if isinstance(t, tuple) and t and t[0] == 'countbag':
+                from .bags import CountBag
+                b = CountBag(self.spec_env[t[1]], None, None, name)
+                b.vc_havoc_inplace(self, name)
+                return b
             if isinstance(t, tuple):
                 return tuple(fresh(x, name) for x in t)
             if callable(t):
@@ -2372,6 +2382,13 @@ def _sf_dget(eng, node, fr):
     return cur
 
 
+def _sf_bagcount(eng, node, fr):
+    """bagcount(x): occurrences of the abstraction key X in a (nested) task list."""
+    from .bags import count_key
+    v = eng.eval(node.args[0], fr)
+    return concretize(Sym(count_key(eng, v, eng.spec_env['X']), INT))
+
+
 def _sf_seqlen(eng, node, fr):
     v = eng.eval(node.args[0], fr)
     if isinstance(v, GenResult):
@@ -2395,4 +2412,4 @@ def _sf_cdiv(eng, node, fr):
 
 
 SPEC_FORMS = {'forall': _sf_forall, 'exists': _sf_exists, 'implies': _sf_implies, 'iff': _sf_iff,
-              'ite': _sf_ite, 'old': _sf_old, 'entry': _sf_entry, 'head': _sf_head, 'dget': _sf_dget, 'seqlen': _sf_seqlen, 'fdiv': _sf_fdiv, 'cdiv': _sf_cdiv}
+              'ite': _sf_ite, 'old': _sf_old, 'entry': _sf_entry, 'head': _sf_head, 'dget': _sf_dget, 'bagcount': _sf_bagcount, 'seqlen': _sf_seqlen, 'fdiv': _sf_fdiv, 'cdiv': _sf_cdiv}
